@@ -178,17 +178,25 @@ Lemma struct_wfb_spec h fs : struct_wfb h fs = true ->
   names_distinct_fold (map f_name fs ++ hook_names h) = true /\
   (forall n fd, In n (hook_targets h) -> In fd fs -> f_name fd = n -> f_ty fd = TyLeaf LStr).
 Proof.
-  unfold struct_wfb. rewrite !andb_true_iff. intros [[A D] T]. repeat split; auto.
+  unfold struct_wfb. rewrite !andb_true_iff. intros [[[A D] T] _]. repeat split; auto.
   intros n fd Hn Hfd Hname. rewrite forallb_forall in T. specialize (T n Hn).
   unfold target_ok in T. rewrite forallb_forall in T. specialize (T fd Hfd).
   rewrite Hname, eqb_bytes_refl in T. cbn in T.
   destruct (f_ty fd) as [[]| | | | | | |]; try discriminate. reflexivity.
 Qed.
 
-Lemma env_wfb_types E n t : env_wfb E = true -> assoc n (e_types E) = Some t -> ty_wfb t = true.
+Lemma struct_wfb_any h fs fd : struct_wfb h fs = true -> In fd fs -> f_ty fd = TyAny -> f_omit fd = true.
+Proof.
+  unfold struct_wfb. rewrite !andb_true_iff. intros [_ H] Hin T. rewrite forallb_forall in H.
+  specialize (H fd Hin). rewrite T in H. exact H.
+Qed.
+
+Lemma env_wfb_types E n t : env_wfb E = true -> assoc n (e_types E) = Some t ->
+  ty_wfb t = true /\ is_any_ty t = false.
 Proof.
   unfold env_wfb. rewrite andb_true_iff. intros [H _] A. apply assoc_In in A.
-  rewrite forallb_forall in H. apply (H (n, t) A).
+  rewrite forallb_forall in H. specialize (H (n, t) A). cbn [snd] in H.
+  apply andb_true_iff in H. destruct H as [H1 H2]. apply negb_true_iff in H2. auto.
 Qed.
 
 Lemma env_wfb_schemas E n t : env_wfb E = true -> assoc n (e_schemas E) = Some t -> ty_wfb t = true.
@@ -772,3 +780,434 @@ Section ByName.
       apply emit_keys_sublist.
   Qed.
 End ByName.
+
+(* ------------------------------------------------------------------------------------------ *)
+(* null array elements                                                                         *)
+(* ------------------------------------------------------------------------------------------ *)
+Definition NN (v : tv) : Prop := has_null_element (depth v) v = false.
+
+Lemma existsb_false {A} (P : A -> bool) l : existsb P l = false <-> (forall x, In x l -> P x = false).
+Proof.
+  induction l as [|a l IH]; cbn; [tauto|]. rewrite orb_false_iff, IH. split.
+  - intros [H1 H2] x [->|Hx]; auto.
+  - intros H. split; auto.
+Qed.
+
+Lemma hn_mono n : forall v n', has_null_element n v = false -> (n <= n')%nat -> has_null_element n' v = false.
+Proof.
+  induction n as [|n IH]; intros v n' H L; [discriminate|].
+  destruct n' as [|n']; [lia|]. cbn [has_null_element] in *.
+  destruct v; auto.
+  - apply orb_false_iff in H. destruct H as [H1 H2]. rewrite H1. cbn.
+    rewrite existsb_false in *. intros x Hx. apply IH; [auto | lia].
+  - rewrite existsb_false in *. intros x Hx. apply IH; [auto | lia].
+Qed.
+
+Lemma depth_arr_le x l : In x l -> (depth x <= fold_right (fun x n => Nat.max (depth x) n) O l)%nat.
+Proof. induction l; cbn; [contradiction|]. intros [->|H]; [lia|]. specialize (IHl H). lia. Qed.
+
+Lemma depth_obj_le (kv : bytes * tv) m : In kv m ->
+  (depth (snd kv) <= fold_right (fun kv n => Nat.max (depth (snd kv)) n) O m)%nat.
+Proof. induction m; cbn; [contradiction|]. intros [->|H]; [lia|]. specialize (IHm H). lia. Qed.
+
+Lemma hn_complete n : forall v, has_null_element n v = false -> NN v.
+Proof.
+  induction n as [|n IH]; intros v H; [discriminate|]. unfold NN.
+  destruct v; try reflexivity; cbn [has_null_element depth] in *.
+  - apply orb_false_iff in H. destruct H as [H1 H2]. rewrite H1. cbn.
+    rewrite existsb_false in *. intros x Hx. eapply hn_mono; [apply IH; auto | now apply depth_arr_le].
+  - rewrite existsb_false in *. intros x Hx. eapply hn_mono; [apply IH; auto | now apply depth_obj_le].
+Qed.
+
+Lemma NN_arr l : NN (TArr l) <-> existsb is_tnull l = false /\ forall x, In x l -> NN x.
+Proof.
+  unfold NN at 1. cbn [depth has_null_element]. rewrite orb_false_iff, !existsb_false. split.
+  - intros [H1 H2]. split; auto. intros x Hx. eapply hn_complete; eauto.
+  - intros [H1 H2]. split; auto. intros x Hx. eapply hn_mono; [apply H2; auto | now apply depth_arr_le].
+Qed.
+
+Lemma NN_obj m : NN (TObj m) <-> forall kv, In kv m -> NN (snd kv).
+Proof.
+  unfold NN at 1. cbn [depth has_null_element]. rewrite existsb_false. split.
+  - intros H kv Hx. eapply hn_complete; eauto.
+  - intros H kv Hx. eapply hn_mono; [apply H; auto | now apply depth_obj_le].
+Qed.
+
+Definition flat (v : tv) : Prop := match v with TArr _ | TObj _ => False | _ => True end.
+Lemma flat_NN v : flat v -> NN v.
+Proof. destruct v; cbn; try contradiction; reflexivity. Qed.
+
+Ltac split_result H :=
+  repeat (match type of H with
+          | (if ?c then _ else _) = _ => destruct c
+          | match ?x with Some _ => _ | None => _ end = _ => destruct x
+          end); try discriminate H.
+
+Lemma reenc_leaf_flat l j j' : reenc_leaf l j = Ok j' -> flat j' /\ (j' = TNull -> j = TNull).
+Proof.
+  intros H. destruct l; destruct j; cbn [reenc_leaf] in H; try discriminate H;
+    try unfold reenc_int in H; split_result H; inversion H; subst; cbn; auto; split; auto; discriminate.
+Qed.
+
+Lemma emit_In fv kv : In kv (emit fv) -> exists p, In p fv /\ kv = (f_name (fst p), snd p).
+Proof.
+  unfold emit. rewrite in_map_iff. intros (p & <- & Hin). apply filter_In in Hin. exists p. tauto.
+Qed.
+
+Lemma NN_emit fv : Forall (fun p => NN (snd p)) fv -> NN (TObj (emit fv)).
+Proof.
+  intros H. apply NN_obj. intros kv Hin. apply emit_In in Hin. destruct Hin as (p & Hp & ->).
+  rewrite Forall_forall in H. apply (H p Hp).
+Qed.
+
+Lemma set_NN n s fv : Forall (fun p => NN (snd p)) fv -> Forall (fun p => NN (snd p)) (set_field n (TStr s) fv).
+Proof.
+  induction 1 as [|[f x] fv H HF IH]; [constructor|]. cbn [set_field].
+  destruct (eqb_bytes (f_name f) n); constructor; auto. reflexivity.
+Qed.
+
+Section Nulls.
+  Variable E : env.
+
+  Lemma hook_NN h m fv fv' : apply_hook E h m fv = Ok fv' ->
+    Forall (fun p => NN (snd p)) fv -> Forall (fun p => NN (snd p)) fv'.
+  Proof.
+    assert (MS : forall l t m fv fv', move_string l t m fv = Ok fv' ->
+                 Forall (fun p => NN (snd p)) fv -> Forall (fun p => NN (snd p)) fv').
+    { intros l t m0 fv0 fv0' H. unfold move_string in H.
+      destruct (assoc l m0) as [[| | |s| |]|]; try discriminate; try (inversion H; subst; auto; fail).
+      destruct s; inversion H; subst; auto using set_NN. }
+    intros H. destruct h; cbn [apply_hook] in H.
+    - inversion H; subst; auto.
+    - destruct (get_field (bs "$regime") fv) as [[| | |s| |]|]; try (inversion H; subst; auto; fail).
+      destruct s; [|inversion H; subst; auto].
+      destruct (e_regime E (supplier_country fv)); inversion H; subst; auto using set_NN.
+    - destruct (assoc (bs "tags") m) as [[| | | |l|]|]; try discriminate; try (inversion H; subst; auto; fail).
+      destruct l; [inversion H; subst; auto | discriminate].
+    - eauto.
+    - apply rbind_ok in H. destruct H as (fv1 & H1 & H2). eauto.
+    - destruct (assoc (bs "tags") m) as [[| | | |l|]|]; try discriminate; try (inversion H; subst; auto; fail).
+      destruct l as [|[| | |k| |] r]; try discriminate; try (inversion H; subst; auto; fail).
+      destruct (negb (all_strings r)); [discriminate|].
+      destruct (get_field (bs "rate") fv) as [[| | |s| |]|]; try (inversion H; subst; auto; fail).
+      destruct s; inversion H; subst; auto using set_NN.
+  Qed.
+
+  Lemma zero_NN f : forall t z, zero_enc E f t = Ok z -> NN z.
+  Proof.
+    induction f as [|f IH]; intros t z H; [discriminate|]. rewrite zero_enc_eq in H.
+    destruct t as [l| | | |h fs|n| |]; try (inversion H; reflexivity); try discriminate.
+    - destruct l; inversion H; reflexivity.
+    - destruct h; try discriminate. apply rbind_ok in H. destruct H as (fv & Hfv & H). inversion H; subst.
+      apply NN_emit. apply rmap_ok in Hfv. clear H. induction Hfv; constructor; auto.
+      apply rbind_ok in H. destruct H as (v & Hv & Hy). inversion Hy; subst. cbn. eapply IH; eauto.
+    - destruct (assoc n (e_types E)); [|discriminate]. eapply IH; eauto.
+  Qed.
+
+  Lemma reenc_null f : forall t j, reenc E f t j = Ok TNull -> j = TNull.
+  Proof.
+    induction f as [|f IH]; intros t j H; [discriminate|]. rewrite reenc_eq in H.
+    destruct t as [l|t'|t'|t'|h fs|n| |].
+    - apply reenc_leaf_flat in H. destruct H as [_ H]. auto.
+    - destruct j; eauto.
+    - destruct j; try discriminate; auto. apply rbind_ok in H. destruct H as (? & _ & H). discriminate.
+    - destruct j; try discriminate; auto. apply rbind_ok in H. destruct H as (? & _ & H). discriminate.
+    - destruct j; try discriminate; auto. unfold struct_step in H.
+      destruct (negb _); [discriminate|]. apply rbind_ok in H. destruct H as (? & _ & H).
+      apply rbind_ok in H. destruct H as (? & _ & H). discriminate.
+    - destruct (assoc n (e_types E)); [|discriminate]. eauto.
+    - discriminate.
+    - destruct j; try discriminate; auto. unfold object_step in H.
+      destruct (negb _); [discriminate|].
+      destruct (assoc schema_key m) as [[| | |s| |]|]; try discriminate.
+      destruct s; [discriminate|].
+      destruct (assoc (b :: s) (e_schemas E)) as [t'|]; [|discriminate].
+      assert (G : (if negb (payload_ok E t') then Dom
+                   else if has_null_element (depth (TObj m)) (TObj m) then Bad
+                   else rbind (reenc E f t' (TObj m))
+                     (fun v => match v with
+                               | TObj [] => Dom
+                               | TObj ms => Ok (TObj ((schema_key, TStr (b :: s)) :: ms))
+                               | _ => Dom
+                               end)) = Ok TNull -> False).
+      { destruct (negb (payload_ok E t')); [discriminate|].
+        destruct (has_null_element _ _); [discriminate|]. intros G.
+        apply rbind_ok in G. destruct G as (v & _ & G). destruct v as [| | | | |[|]]; discriminate. }
+      destruct t'; try (exfalso; exact (G H)). discriminate.
+  Qed.
+
+  (* N: null array elements of the output come from null array elements of the input *)
+  Lemma reenc_NN f : forall t j j', reenc E f t j = Ok j' -> NN j -> NN j'.
+  Proof.
+    induction f as [|f IH]; intros t j j' H Hj; [discriminate|]. rewrite reenc_eq in H.
+    destruct t as [l|t'|t'|t'|h fs|n| |].
+    - apply reenc_leaf_flat in H. apply flat_NN. tauto.
+    - destruct j; try (eapply IH; eauto; fail). inversion H. reflexivity.
+    - destruct j; try discriminate; [inversion H; reflexivity|].
+      apply rbind_ok in H. destruct H as (l' & Hl & H). inversion H; subst. apply rmap_ok in Hl.
+      apply NN_arr in Hj. destruct Hj as [Hn Hx]. apply NN_arr. split.
+      + apply existsb_false. intros y Hy. destruct (Forall2_In_r _ _ _ _ Hl Hy) as (x & Hxin & Hr).
+        destruct y; auto. apply reenc_null in Hr. subst x.
+        rewrite existsb_false in Hn. apply (Hn _ Hxin).
+      + intros y Hy. destruct (Forall2_In_r _ _ _ _ Hl Hy) as (x & Hxin & Hr). eapply IH; eauto.
+    - destruct j; try discriminate; [inversion H; reflexivity|].
+      apply rbind_ok in H. destruct H as (m' & Hm & H). inversion H; subst. apply rmap_ok in Hm.
+      rewrite NN_obj in Hj. apply NN_obj. intros kv Hkv.
+      apply (Permutation_in _ (sort_kv_perm m')) in Hkv.
+      destruct (Forall2_In_r _ _ _ _ Hm Hkv) as (kv0 & Hin0 & Hr).
+      apply rbind_ok in Hr. destruct Hr as (v & Hv & Hr). inversion Hr; subst. cbn [snd].
+      eapply IH; eauto. apply Hj. now apply dedup_last_In.
+    - destruct j; try discriminate.
+      + destruct h; try discriminate. eapply zero_NN; eauto.
+      + unfold struct_step in H. destruct (negb _); [discriminate|].
+        apply rbind_ok in H. destruct H as (fv & Hfv & H).
+        apply rbind_ok in H. destruct H as (fv' & Hh & H). inversion H; subst.
+        apply NN_emit. eapply hook_NN; eauto.
+        rewrite NN_obj in Hj. apply rmap_ok in Hfv. clear H Hh.
+        induction Hfv as [|fd p fs0 fv0 Hp _ IHf]; constructor; auto.
+        destruct (assoc (f_name fd) m) as [x|] eqn:A.
+        * apply rbind_ok in Hp. destruct Hp as (v & Hv & Hp). inversion Hp; subst. cbn [snd].
+          eapply IH; eauto. apply assoc_In in A. apply (Hj _ A).
+        * apply rbind_ok in Hp. destruct Hp as (v & Hv & Hp). inversion Hp; subst. cbn [snd].
+          eapply zero_NN; eauto.
+    - destruct (assoc n (e_types E)); [|discriminate]. eauto.
+    - discriminate.
+    - destruct j; try discriminate. unfold object_step in H.
+      destruct (negb _); [discriminate|].
+      destruct (assoc schema_key m) as [[| | |s| |]|]; try discriminate.
+      destruct s; [discriminate|].
+      destruct (assoc (b :: s) (e_schemas E)) as [t'|]; [|discriminate].
+      assert (G : (if negb (payload_ok E t') then Dom
+                   else if has_null_element (depth (TObj m)) (TObj m) then Bad
+                   else rbind (reenc E f t' (TObj m))
+                     (fun v => match v with
+                               | TObj [] => Dom
+                               | TObj ms => Ok (TObj ((schema_key, TStr (b :: s)) :: ms))
+                               | _ => Dom
+                               end)) = Ok j' -> NN j').
+      { destruct (negb (payload_ok E t')); [discriminate|].
+        destruct (has_null_element _ _); [discriminate|]. intros G.
+        apply rbind_ok in G. destruct G as (v & Hv & G).
+        destruct v as [| | | | |[|kv ms]]; try discriminate. inversion G; subst.
+        apply IH in Hv; auto. rewrite NN_obj in Hv. apply NN_obj.
+        intros kv' [<-|Hin]; [reflexivity | auto]. }
+      destruct t'; try (exact (G H)). discriminate.
+  Qed.
+End Nulls.
+
+(* ------------------------------------------------------------------------------------------ *)
+(* T1: what was written is read back and written identically                                   *)
+(* ------------------------------------------------------------------------------------------ *)
+Lemma schema_key_ascii : is_ascii schema_key = true.
+Proof. reflexivity. Qed.
+
+Section Idem.
+  Variable E : env.
+  Hypothesis WE : env_wfb E = true.
+
+  Section Step.
+    Variable f : nat.
+    Hypothesis IHZ : forall t z, ty_wfb t = true -> is_any_ty t = false -> zero_enc E f t = Ok z -> reenc E f t z = Ok z.
+    Hypothesis IHR : forall t j j', ty_wfb t = true -> reenc E f t j = Ok j' -> reenc E f t j' = Ok j'.
+
+    Lemma Good_of_zero h fs fd v : struct_wfb h fs = true -> In fd fs -> ty_wfb (f_ty fd) = true ->
+      zero_enc E f (f_ty fd) = Ok v -> Good E f (fd, v).
+    Proof.
+      intros W Hin Wt H. split; cbn [fst snd]; intros Em.
+      - destruct (is_any_ty (f_ty fd)) eqn:An; [|auto].
+        exfalso. destruct (f_ty fd) eqn:T; try discriminate.
+        pose proof (struct_wfb_any _ _ _ W Hin T) as O.
+        destruct f; [discriminate|]. rewrite zero_enc_eq in H. inversion H; subst v.
+        unfold emitted in Em. cbn [fst snd] in Em. rewrite O, T in Em. discriminate.
+      - exists v. split; auto. unfold emitted in Em. cbn [fst snd] in Em.
+        apply negb_false_iff, andb_true_iff in Em. tauto.
+    Qed.
+
+    Lemma Good_of_reenc fd x v : ty_wfb (f_ty fd) = true -> reenc E f (f_ty fd) x = Ok v -> Good E f (fd, v).
+    Proof.
+      intros Wt H. split; cbn [fst snd]; intros Em; [eauto|].
+      unfold emitted in Em. cbn [fst snd] in Em. apply negb_false_iff, andb_true_iff in Em.
+      destruct f; [discriminate|]. eapply empty_zero. apply Em.
+    Qed.
+
+    Lemma first_pass_good h fs m fv : ty_wfb (TyStruct h fs) = true ->
+      rmap (fun fd => match assoc (f_name fd) m with
+                      | Some x => rbind (reenc E f (f_ty fd) x) (fun v => Ok (fd, v))
+                      | None => rbind (zero_enc E f (f_ty fd)) (fun v => Ok (fd, v))
+                      end) fs = Ok fv -> Forall (Good E f) fv.
+    Proof.
+      intros W H. apply ty_wfb_struct in W. destruct W as [W Wf].
+      apply rmap_ok in H. apply Forall_forall. intros p Hp.
+      destruct (Forall2_In_r _ _ _ _ H Hp) as (fd & Hfd & Hr). cbv beta in Hr.
+      destruct (assoc (f_name fd) m).
+      - apply rbind_ok in Hr. destruct Hr as (v & Hv & Hr). inversion Hr; subst.
+        eapply Good_of_reenc; eauto.
+      - apply rbind_ok in Hr. destruct Hr as (v & Hv & Hr). inversion Hr; subst.
+        eapply Good_of_zero; eauto.
+    Qed.
+
+    Lemma zero_pass_good fs fv : ty_wfb (TyStruct HNone fs) = true ->
+      rmap (fun fd => rbind (zero_enc E f (f_ty fd)) (fun v => Ok (fd, v))) fs = Ok fv -> Forall (Good E f) fv.
+    Proof.
+      intros W H. apply (first_pass_good HNone fs [] fv W). exact H.
+    Qed.
+
+    (* the struct step, read back *)
+    Lemma struct_idem h fs m j' : ty_wfb (TyStruct h fs) = true ->
+      struct_step E f h fs m = Ok j' -> exists ms, j' = TObj ms /\ struct_step E f h fs ms = Ok (TObj ms).
+    Proof.
+      intros W H. pose proof (ty_wfb_struct _ _ W) as [Ws _]. unfold struct_step in H.
+      destruct (negb (members_in_domain (map f_name fs ++ hook_names h) m)); [discriminate|].
+      apply rbind_ok in H. destruct H as (fv & Hfv & H).
+      apply rbind_ok in H. destruct H as (fv' & Hh & H). inversion H; subst j'. clear H.
+      pose proof (first_pass_good _ _ _ _ W Hfv) as G.
+      pose proof (struct_first_fst _ _ _ _ _ Hfv) as Hfs.
+      destruct (hook_good E f h fs m fv fv' Ws Hfs Hh G) as [G' Hfs'].
+      exists (emit fv'). split; auto.
+      apply struct_reread; auto.
+      intros fv2 HR. eapply hook_second; eauto.
+    Qed.
+
+    Lemma zero_struct_idem fs z : ty_wfb (TyStruct HNone fs) = true ->
+      zero_enc E (S f) (TyStruct HNone fs) = Ok z ->
+      exists ms, z = TObj ms /\ struct_step E f HNone fs ms = Ok (TObj ms).
+    Proof.
+      intros W H. pose proof (ty_wfb_struct _ _ W) as [Ws _]. rewrite zero_enc_eq in H.
+      apply rbind_ok in H. destruct H as (fv & Hfv & H). inversion H; subst z. clear H.
+      exists (emit fv). split; auto. apply struct_reread; auto.
+      - apply (rmap_tag_fst (fun fd => zero_enc E f (f_ty fd)) _ _ Hfv).
+      - apply (zero_pass_good fs fv W Hfv).
+    Qed.
+  End Step.
+
+  Theorem idem_both f :
+    (forall t z, ty_wfb t = true -> is_any_ty t = false -> zero_enc E f t = Ok z -> reenc E f t z = Ok z) /\
+    (forall t j j', ty_wfb t = true -> reenc E f t j = Ok j' -> reenc E f t j' = Ok j').
+  Proof.
+    induction f as [|f [IHZ IHR]]; [split; intros; discriminate|].
+    assert (Z : forall t z, ty_wfb t = true -> is_any_ty t = false -> zero_enc E (S f) t = Ok z -> reenc E (S f) t z = Ok z).
+    { intros t z W An H. rewrite reenc_eq.
+      destruct t as [l|t'|t'|t'|h fs|n| |].
+      - rewrite zero_enc_eq in H. now apply zero_leaf_idem.
+      - rewrite zero_enc_eq in H. inversion H; reflexivity.
+      - rewrite zero_enc_eq in H. inversion H; reflexivity.
+      - rewrite zero_enc_eq in H. inversion H; reflexivity.
+      - destruct h; try (rewrite zero_enc_eq in H; discriminate).
+        destruct (zero_struct_idem f IHZ IHR fs z W H) as (ms & -> & Hs). exact Hs.
+      - rewrite zero_enc_eq in H. destruct (assoc n (e_types E)) as [t'|] eqn:A; [|discriminate].
+        destruct (env_wfb_types _ _ _ WE A). auto.
+      - discriminate.
+      - rewrite zero_enc_eq in H. discriminate. }
+    split; [exact Z|].
+    intros t j j' W H. rewrite reenc_eq in H. rewrite reenc_eq.
+    destruct t as [l|t'|t'|t'|h fs|n| |].
+    - eapply reenc_leaf_idem; eauto.
+    - (* pointer *)
+      cbn [ty_wfb] in W.
+      assert (G : reenc E f t' j = Ok j' -> match j' with TNull => Ok TNull | _ => reenc E f t' j' end = Ok j').
+      { intros G. apply IHR in G; auto. destruct j'; auto. }
+      destruct j; auto. inversion H; reflexivity.
+    - (* slice *)
+      cbn [ty_wfb] in W. destruct j; try discriminate; [inversion H; reflexivity|].
+      apply rbind_ok in H. destruct H as (l' & Hl & H). inversion H; subst j'. apply rmap_ok in Hl.
+      rewrite rmap_id; [reflexivity|]. intros y Hy.
+      destruct (Forall2_In_r _ _ _ _ Hl Hy) as (x & _ & Hr). eauto.
+    - (* map *)
+      cbn [ty_wfb] in W. destruct j; try discriminate; [inversion H; reflexivity|].
+      apply rbind_ok in H. destruct H as (m' & Hm & H). inversion H; subst j'. apply rmap_ok in Hm.
+      assert (Keys : map fst m' = map fst (dedup_last m)).
+      { clear H. induction Hm; cbn; auto.
+        apply rbind_ok in H. destruct H as (v & _ & Hv). inversion Hv; subst. cbn. congruence. }
+      assert (ND : NoDup (map fst (sort_kv m'))).
+      { eapply Permutation_NoDup; [apply Permutation_map; symmetry; apply sort_kv_perm|].
+        rewrite Keys. apply dedup_last_NoDup. }
+      rewrite (dedup_last_id _ ND).
+      rewrite rmap_id.
+      + cbn [rbind]. rewrite (sort_kv_of_sorted _ (sort_kv_sorted m')). reflexivity.
+      + intros [k v] Hkv. cbn [fst snd].
+        apply (Permutation_in _ (sort_kv_perm m')) in Hkv.
+        destruct (Forall2_In_r _ _ _ _ Hm Hkv) as (kv0 & _ & Hr).
+        apply rbind_ok in Hr. destruct Hr as (v0 & Hv0 & Hr). inversion Hr; subst.
+        rewrite (IHR _ _ _ W Hv0). reflexivity.
+    - (* struct *)
+      destruct j; try discriminate.
+      + destruct h; try discriminate.
+        assert (An : is_any_ty (TyStruct HNone fs) = false) by reflexivity.
+        pose proof (IHZ _ _ W An H) as R1. apply reenc_S in R1. rewrite reenc_eq in R1. exact R1.
+      + destruct (struct_idem f IHZ IHR h fs m j' W H) as (ms & -> & Hs). exact Hs.
+    - (* named type *)
+      destruct (assoc n (e_types E)) as [t'|] eqn:A; [|discriminate].
+      destruct (env_wfb_types _ _ _ WE A). eauto.
+    - discriminate.
+    - (* schema.Object *)
+      destruct j; try discriminate. unfold object_step in H.
+      destruct (members_in_domain [schema_key] m) eqn:M0; [|discriminate]. cbn [negb] in H.
+      destruct (assoc schema_key m) as [[| | |id| |]|] eqn:A0; try discriminate.
+      destruct id as [|c id]; [discriminate|].
+      destruct (assoc (c :: id) (e_schemas E)) as [t'|] eqn:As; [|discriminate].
+      destruct t' as [| | | | |n| |]; try discriminate.
+      destruct (payload_ok E (TyRef n)) eqn:P; [|discriminate]. cbn [negb] in H.
+      destruct (has_null_element (depth (TObj m)) (TObj m)) eqn:HN; [discriminate|].
+      apply rbind_ok in H. destruct H as (v & Hv & H).
+      destruct v as [| | | | |[|kv ms]]; try discriminate. inversion H; subst j'. clear H.
+      remember (kv :: ms) as ms' eqn:Ems.
+      (* the payload type *)
+      unfold payload_ok in P. destruct (assoc n (e_types E)) as [ts|] eqn:An; [|discriminate].
+      destruct ts as [| | | |h fs| | |]; try discriminate. apply negb_true_iff in P.
+      destruct (env_wfb_types _ _ _ WE An) as [Wts _].
+      pose proof (ty_wfb_struct _ _ Wts) as [Ws _].
+      destruct (struct_wfb_spec _ _ Ws) as (Asc & D & _).
+      assert (Psk : forall k, In k (map f_name fs ++ hook_names h) -> fold_eq schema_key k = false).
+      { rewrite existsb_false in P. exact P. }
+      destruct f as [|f1]; [discriminate|].
+      pose proof Hv as Hv1. rewrite reenc_eq, An in Hv1.
+      pose proof (written_members_in_declaration_order E _ _ _ _ _ Hv1) as Sub.
+      assert (InL : forall k, In k (map fst ms') -> In k (map f_name fs ++ hook_names h)).
+      { intros k Hk. apply in_or_app. left. eapply sublist_In; eauto. }
+      assert (Dn : names_distinct_fold (map f_name fs) = true).
+      { eapply sublist_ndf; [|exact D]. rewrite <- (app_nil_r (map f_name fs)) at 1.
+        apply sublist_app; [apply sublist_refl | apply sublist_nil]. }
+      assert (Dk : names_distinct_fold (schema_key :: map fst ms') = true).
+      { cbn [names_distinct_fold]. apply andb_true_iff. split.
+        - apply negb_true_iff, existsb_false. intros k Hk. auto.
+        - eapply sublist_ndf; eauto. }
+      assert (Ak : forallb is_ascii (schema_key :: map fst ms') = true).
+      { cbn [forallb]. rewrite schema_key_ascii. cbn. eapply sublist_forallb; eauto. }
+      (* the written object is in both domains *)
+      assert (M1 : members_in_domain [schema_key] ((schema_key, TStr (c :: id)) :: ms') = true).
+      { apply mid_spec. cbn [map fst]. repeat split; auto.
+        apply names_exact_spec. intros a b [<-|Ha] [<-|[]]; auto.
+        intros F. rewrite fold_eq_sym, (Psk a (InL _ Ha)) in F. discriminate. }
+      assert (M2 : members_in_domain (map f_name fs ++ hook_names h) ((schema_key, TStr (c :: id)) :: ms') = true).
+      { apply mid_spec. cbn [map fst]. repeat split; auto.
+        apply names_exact_spec. intros a b [<-|Ha] Hb F.
+        - rewrite (Psk b Hb) in F. discriminate.
+        - eapply (ndf_spec _ D); auto. }
+      (* no null array elements *)
+      assert (N1 : has_null_element (depth (TObj ((schema_key, TStr (c :: id)) :: ms')))
+                                    (TObj ((schema_key, TStr (c :: id)) :: ms')) = false).
+      { change (NN (TObj ((schema_key, TStr (c :: id)) :: ms'))).
+        pose proof (reenc_NN E _ _ _ _ Hv HN) as N0. rewrite NN_obj in N0. apply NN_obj.
+        intros kv' [<-|Hin]; [reflexivity | auto]. }
+      (* the payload, read back *)
+      assert (W1 : ty_wfb (TyRef n) = true) by reflexivity.
+      pose proof (IHR _ _ _ W1 Hv) as R1.
+      assert (R2 : reenc E (S f1) (TyRef n) (TObj ((schema_key, TStr (c :: id)) :: ms')) = Ok (TObj ms')).
+      { rewrite reenc_eq, An. rewrite reenc_eq, An in R1. rewrite <- R1.
+        apply (ignores_unknown_members E f1 h fs [] [(schema_key, TStr (c :: id))] ms').
+        - intros kv0 k [<-|[]] Hk. cbn [fst]. auto.
+        - exact M2. }
+      unfold object_step. rewrite M1. cbn [negb assoc].
+      change (eqb_bytes schema_key schema_key) with true. cbv iota.
+      rewrite As. unfold payload_ok. rewrite An, P. cbn [negb].
+      rewrite N1, R2. subst ms'. reflexivity.
+  Qed.
+
+  Theorem reenc_idempotent fuel t j j' : ty_wfb t = true ->
+    reenc E fuel t j = Ok j' -> reenc E fuel t j' = Ok j'.
+  Proof. intros W. apply (proj2 (idem_both fuel)); auto. Qed.
+
+  Theorem zero_enc_read_back fuel t z : ty_wfb t = true -> is_any_ty t = false ->
+    zero_enc E fuel t = Ok z -> reenc E fuel t z = Ok z.
+  Proof. apply (proj1 (idem_both fuel)). Qed.
+End Idem.
